@@ -2,13 +2,13 @@ package main
 
 import (
 	"fmt"
-	"time"
 	"go/constant"
 	"go/token"
 	"go/types"
 	"math"
 	"strconv"
 	"strings"
+	"time"
 	"unicode/utf8"
 
 	"golang.org/x/tools/go/ssa"
@@ -81,6 +81,8 @@ type Engine struct {
 	copyCells                map[*Value]bool
 	cellArr                  map[*Value]cellInfo
 	unwindIn                 map[*ssa.Function]int
+	curRange                 *ssa.Range
+	orderFree                map[*ssa.Range]bool
 }
 
 // Packages whose initialiser is executed from source (lazily, on the first access to one of their
@@ -147,7 +149,6 @@ func (e *Engine) initStores(p *ssa.Package) map[*ssa.Global]bool {
 	return m
 }
 
-
 type cellInfo struct {
 	arr *[]Value
 	idx int
@@ -159,14 +160,14 @@ type parentInfo struct {
 }
 
 type Frame struct {
-	fn     *ssa.Function
-	locals map[ssa.Value]Value
-	block  *ssa.BasicBlock
-	prev   *ssa.BasicBlock
-	defers []func()
-	result Value
+	fn      *ssa.Function
+	locals  map[ssa.Value]Value
+	block   *ssa.BasicBlock
+	prev    *ssa.BasicBlock
+	defers  []func()
+	result  Value
 	phiDone bool
-	visits map[*ssa.BasicBlock]int
+	visits  map[*ssa.BasicBlock]int
 }
 
 func (e *Engine) newSym(w int, hint string) *Term {
@@ -1089,6 +1090,7 @@ func (e *Engine) eval(fr *Frame, ins ssa.Value) Value {
 	case *ssa.TypeAssert:
 		return e.typeAssert(ins, e.get(fr, ins.X).(Iface))
 	case *ssa.Range:
+		e.curRange = ins
 		return e.rangeIter(e.get(fr, ins.X))
 	case *ssa.Next:
 		return e.get(fr, ins.Iter).(*iter).next(e, ins)
@@ -1819,7 +1821,6 @@ func (e *Engine) ptrFromInt(x PtrInt) Value {
 	panic(unsupported("pointer arithmetic"))
 }
 
-
 // decodeRunes decodes UTF-8 from possibly-symbolic bytes, forking on byte classes.
 func (e *Engine) decodeRunes(s Str) []Int {
 	rs, _ := e.decodeRunesSz(s)
@@ -1906,4 +1907,71 @@ func strLess(a, b Str) (*Term, *Term) {
 		eq = mkAnd(be, eq)
 	}
 	return lt, eq
+}
+
+// orderInsensitiveLoop recognises the map copy / clear idioms
+//
+//	for k, v := range m { dst[k] = v }      for k := range m { delete(m, k) }
+//
+// at SSA level: the loop body consists only of extracting key/value and map updates or deletes. The
+// result of such a loop does not depend on the iteration order (keys are distinct), so the
+// map-order adversary does not fork on it.
+func (e *Engine) orderInsensitiveLoop(rng *ssa.Range) bool {
+	if rng == nil {
+		return false
+	}
+	if v, ok := e.orderFree[rng]; ok {
+		return v
+	}
+	res := func() bool {
+		refs := rng.Referrers()
+		if refs == nil || len(*refs) != 1 {
+			return false
+		}
+		nx, ok := (*refs)[0].(*ssa.Next)
+		if !ok {
+			return false
+		}
+		hdr := nx.Block()
+		if len(hdr.Instrs) == 0 {
+			return false
+		}
+		br, ok := hdr.Instrs[len(hdr.Instrs)-1].(*ssa.If)
+		if !ok || len(hdr.Succs) != 2 {
+			return false
+		}
+		_ = br
+		for _, ins := range hdr.Instrs {
+			switch ins.(type) {
+			case *ssa.Next, *ssa.Extract, *ssa.If, *ssa.DebugRef, *ssa.Phi:
+			default:
+				return false
+			}
+		}
+		body := hdr.Succs[0]
+		if len(body.Succs) != 1 || body.Succs[0] != hdr {
+			return false
+		}
+		for _, ins := range body.Instrs {
+			switch x := ins.(type) {
+			case *ssa.Extract, *ssa.MapUpdate, *ssa.Jump, *ssa.DebugRef, *ssa.ChangeType, *ssa.MakeInterface, *ssa.UnOp, *ssa.FieldAddr:
+				if u, isU := x.(*ssa.UnOp); isU && u.Op != token.MUL {
+					return false
+				}
+			case *ssa.Call:
+				b, isB := x.Call.Value.(*ssa.Builtin)
+				if !isB || b.Name() != "delete" {
+					return false
+				}
+			default:
+				return false
+			}
+		}
+		return true
+	}()
+	if e.orderFree == nil {
+		e.orderFree = map[*ssa.Range]bool{}
+	}
+	e.orderFree[rng] = res
+	return res
 }
